@@ -10,18 +10,35 @@ def classify(case):
 
 SPEC = dict(
     prop="C18",
-    disabled="under construction",
     coq_targets=["props/C18.vo"],
     drivers=[
         dict(name="check", kind="test", pkg="./asserts", run="TestVerifC18",
-             n=dict(quick=300, thorough=6000),
+             n=dict(quick=260, thorough=6000),
              timeout=dict(quick=300, thorough=1800),
              ev=dict(requires=["V.lib.Bytes", "V.models.AssertCheck"], case_type="AssertCheck.case",
                      mismatch="AssertCheck.mismatch", monitor="AssertCheck.monitor_fail")),
     ],
     classify=classify,
-    rule="",
+    rule=("real asserts.Database (memory backstore, trusted root account + root key) and a signing key whose account-key "
+          "assertion (signed by the root) is trusted / stored / absent, for the assertion's authority or another account, "
+          "with since/until and optional header constraints; the assertion is a `model` (timestamped) or `test-only` signed "
+          "with that key. Enumerated first: clock (MockTimeNow) and timestamp at since-1, since, since+1, until-1, until, "
+          "until+1 for trusted and stored keys and both types, the same with SetEarliestTime, no-until key far in the "
+          "future, unknown key, other authority, five constraint sets that admit / do not admit; structural mutations "
+          "(signature of another genuine assertion, extra unhashed subpacket, duplicated / added / swapped header lines). "
+          "Then random: single-bit and byte xor, byte insertion, byte deletion at random offsets of the encoded assertion "
+          "(headers, separator, base64 signature), 20% random key situation x clock x timestamp without mutation. Observed: "
+          "decode ok, Check accepted, Add accepted and found again. Non-trivial = the key is known to the database."),
     exhaustive=dict(quick=False, thorough=False),
-    trusted_base=[],
-    assumptions=[],
+    trusted_base=[
+        "hand-written model coq/models/AssertCheck.v of asserts/database.go (Check, findAccountKey, DefaultCheckers) and asserts/account_key.go (validity window, constraints), tied by the differential run (harness/overlay/asserts/zz_verif_c18_test.go, in-package test so that asserts.MockTimeNow is available)",
+        "RSA / SHA-512 / OpenPGP packet parsing are NOT modelled: `verify` is a Section variable; the correspondence instantiates it with the idealised signature relative to the genuinely signed (key id, content, signature core)",
+        "the driver projects an assertion to (authority, sign key id, timestamp, string headers, content, base64-decoded signature, signature core = packet with the unhashed area emptied)",
+    ],
+    assumptions=[
+        "PARTIAL: signature verification is an oracle; `C18_any_mutation_rejected_partial` holds under the hypothesis that only genuinely produced (key, content, signature core) triples verify; on the real code the conclusion is checked for byte and structural mutations only",
+        "KNOWN FINDING sig-unhashed-subpacket: the decoded signature is not pinned down by verification (unhashed OpenPGP subpackets); `C18_decoded_signature_mutation_refuted`",
+        "assertion types without authority (account-key-request, serial-request, device-session-request) and CheckCrossConsistency are outside the model; the driver uses types whose cross-consistency check is trivial",
+        "account-key constraints are restricted to literal header values; times are whole seconds",
+    ],
 )
